@@ -1658,3 +1658,190 @@ Qed.
 Lemma row_key_numeric_text z rest :
   row_key 1 (PNum z :: rest) = row_key 1 (PStr (str_of_Z z) :: rest).
 Proof. reflexivity. Qed.
+
+(* ------------------------------------------------------------ table given as a file path *)
+
+(* Reading a tsv file never produces a missing value: every cell is a number or
+   the text that stands in the file (None, NA, null, nan, NULL, the empty cell
+   ... are ordinary text). *)
+Lemma read_cell_not_na b s : read_cell b s <> CNa.
+Proof. unfold read_cell. destruct b; [destruct (parse_int s)|]; discriminate. Qed.
+
+Lemma zip_with_Forall {A B C} (P : C -> Prop) (f : A -> B -> C) l m :
+  (forall a b, P (f a b)) -> Forall P (zip_with f l m).
+Proof. intro H. revert m. induction l as [|x l IH]; intros [|y m]; cbn [zip_with]; constructor; auto. Qed.
+
+Lemma read_table_no_nan cs rs : no_nan (read_table cs rs).
+Proof.
+  unfold no_nan, read_table. cbn [rows]. apply Forall_forall. intros r Hr.
+  apply in_map_iff in Hr as [r0 [<- _]]. apply zip_with_Forall. intros b s. apply read_cell_not_na.
+Qed.
+
+Lemma nth_zip_with {A B C} (f : A -> B -> C) l m j da db dc :
+  j < length l -> j < length m -> nth j (zip_with f l m) dc = f (nth j l da) (nth j m db).
+Proof.
+  revert m j. induction l as [|x l IH]; intros [|y m] j Hl Hm; cbn in *; try lia.
+  destruct j; [reflexivity|]. apply IH; lia.
+Qed.
+
+Lemma nth_map_some {A B} (F : A -> B) l k x d : nth_error l k = Some x -> nth k (map F l) d = F x.
+Proof. intro H. apply nth_error_nth. apply map_nth_error. exact H. Qed.
+
+(* a column that holds anything but integers keeps the text of every cell *)
+Lemma read_table_text cs rs r j :
+  In r rs -> length r = length cs -> j < length cs ->
+  forallb (fun r0 => is_int_text (nth j r0 [])) rs = false ->
+  forall k, nth_error rs k = Some r ->
+  get_cell j (nth k (rows (read_table cs rs)) []) = CStr (nth j r []).
+Proof.
+  intros Hin Hlen Hj Hnum k Hk. unfold read_table. cbn [rows].
+  set (numeric := map (fun j0 => forallb (fun r0 => is_int_text (nth j0 r0 [])) rs) (seq 0 (length cs))).
+  rewrite (nth_map_some _ rs k r _ Hk). unfold get_cell.
+  rewrite (nth_zip_with read_cell numeric r j false [] CNa);
+    [| unfold numeric; rewrite map_length, seq_length; exact Hj | exact (eq_ind_r (fun n => j < n) Hj Hlen)].
+  unfold numeric.
+  rewrite (nth_indep _ false ((fun j0 => forallb (fun r0 => is_int_text (nth j0 r0 [])) rs) 0));
+    [|rewrite map_length, seq_length; exact Hj].
+  rewrite (map_nth (fun j0 => forallb (fun r0 => is_int_text (nth j0 r0 [])) rs) (seq 0 (length cs)) 0 j).
+  rewrite seq_nth; [|exact Hj]. cbn [plus]. rewrite Hnum. reflexivity.
+Qed.
+
+(* the only text that the dispatcher treats as missing is n/a *)
+Lemma prep_cell_na_iff s : prep_cell (CStr s) = CNa <-> s = s_na.
+Proof.
+  cbn [prep_cell]. destruct (str_eqb s s_na) eqn:E; split; intro H; try discriminate; try reflexivity.
+  - apply str_eqb_spec. exact E.
+  - subst. rewrite str_eqb_refl in E. discriminate.
+Qed.
+
+Lemma prep_post_text s : post_cell (prep_cell (CStr s)) = CStr s.
+Proof. apply post_prep_cell. discriminate. Qed.
+
+(* Dispatcher.run_operations on a path = on the frame read from it *)
+Definition run_path (fx : fixes) (sts : list opstate) (cs : list str) (rs : list (list str))
+  : list opstate * res table := run_operations fx sts (read_table cs rs).
+
+Lemma run_path_is_frame fx sts cs rs : run_path fx sts cs rs = run_operations fx sts (read_table cs rs).
+Proof. reflexivity. Qed.
+
+(* ------------------------------------------------------------ validation never raises *)
+
+Definition only_unmodelled {A} (r : res A) : Prop := forall e, r = Exn e -> e = Unmodelled.
+
+Lemma ou_ok {A} (a : A) : only_unmodelled (Ok a).
+Proof. intros e H. discriminate. Qed.
+Lemma ou_exn {A} : only_unmodelled (@Exn A Unmodelled).
+Proof. intros e H. injection H as <-. reflexivity. Qed.
+Lemma ou_bind {A B} (r : res A) (f : A -> res B) :
+  only_unmodelled r -> (forall a, only_unmodelled (f a)) -> only_unmodelled (bind r f).
+Proof.
+  intros Hr Hf e H. destruct r as [a|e0]; cbn [bind] in H; [exact (Hf a e H)|].
+  injection H as <-. apply (Hr e0). reflexivity.
+Qed.
+Lemma ou_mapM {A B} (f : A -> res B) l : (forall x, only_unmodelled (f x)) -> only_unmodelled (mapM f l).
+Proof.
+  intro H. induction l as [|x l IH]; cbn [mapM]; [apply ou_ok|].
+  apply ou_bind; [apply H|]. intro y. apply ou_bind; [exact IH|]. intro ys. apply ou_ok.
+Qed.
+
+Lemma ou_attr k a : only_unmodelled (attr k a).
+Proof. unfold attr. destruct (lookup k a); [apply ou_ok | apply ou_exn]. Qed.
+Lemma ou_as_str j : only_unmodelled (as_str j).
+Proof. destruct j; try apply ou_exn. apply ou_ok. Qed.
+Lemma ou_as_bool j : only_unmodelled (as_bool j).
+Proof. destruct j; try apply ou_exn. apply ou_ok. Qed.
+Lemma ou_as_pval j : only_unmodelled (as_pval j).
+Proof. destruct j; try apply ou_exn; apply ou_ok. Qed.
+Lemma ou_as_list {A} (f : json -> res A) j : (forall x, only_unmodelled (f x)) -> only_unmodelled (as_list f j).
+Proof. intro H. destruct j; try apply ou_exn. cbn [as_list]. apply ou_mapM. exact H. Qed.
+Lemma ou_as_opt_list {A} (f : json -> res A) j :
+  (forall x, only_unmodelled (f x)) -> only_unmodelled (as_opt_list f j).
+Proof.
+  intro H. destruct j; try apply ou_exn; cbn [as_opt_list]; [apply ou_ok|].
+  apply ou_bind; [apply ou_mapM; exact H | intro x; apply ou_ok].
+Qed.
+
+Lemma ou_as_event kv : only_unmodelled (as_event kv).
+Proof.
+  destruct kv as [name ev]. unfold as_event. destruct ev; try apply ou_exn.
+  apply ou_bind.
+  { destruct (lookup k_onset_source kvs); [apply ou_as_list; apply ou_as_pval | apply ou_exn]. }
+  intro os. apply ou_bind.
+  { destruct (lookup k_duration kvs); [apply ou_as_list; apply ou_as_pval | apply ou_exn]. }
+  intro ds. apply ou_bind; [|intro cc; apply ou_ok].
+  destruct (split_rows_event_fetch (JObj kvs)); [|apply ou_ok].
+  apply ou_bind; [apply ou_attr | intro v; apply ou_as_opt_list; apply ou_as_str].
+Qed.
+
+Ltac ou_step :=
+  first [ apply ou_ok | apply ou_exn | apply ou_attr | apply ou_as_str | apply ou_as_bool | apply ou_as_pval
+        | apply ou_as_event
+        | (apply ou_as_list; intro) | (apply ou_as_opt_list; intro) | (apply ou_mapM; intro)
+        | (apply ou_bind; [|intro]) ].
+
+Lemma ou_to_opstate name a : only_unmodelled (to_opstate name a).
+Proof.
+  unfold to_opstate.
+  repeat match goal with |- only_unmodelled (if ?b then _ else _) => destruct b end;
+    repeat ou_step.
+  all: try (match goal with |- only_unmodelled (match ?j with _ => _ end) => destruct j end; repeat ou_step).
+Qed.
+
+Lemma lookup_In {A} k (kvs : list (str * A)) v : lookup k kvs = Some v -> exists k', In (k', v) kvs.
+Proof.
+  induction kvs as [|[k0 v0] kvs IH]; cbn [lookup]; [discriminate|].
+  destruct (str_eqb k k0); [intro H; injection H as <-; exists k0; left; reflexivity|].
+  intro H. destruct (IH H) as [k' Hk']. exists k'. right. exact Hk'.
+Qed.
+
+Lemma ou_item_schema_ok item : only_unmodelled (item_schema_ok item).
+Proof.
+  unfold item_schema_ok. destruct item; try apply ou_ok.
+  destruct (lookup k_operation kvs) as [[]|]; try apply ou_ok.
+  destruct (negb (mem_str s valid_operation_names)); [apply ou_ok|].
+  match goal with |- only_unmodelled (if ?b then _ else _) => destruct b end; [apply ou_ok|].
+  destruct (lookup s op_table) as [[sch init]|]; [|apply ou_exn].
+  destruct (lookup k_parameters kvs); [apply ou_ok | apply ou_exn].
+Qed.
+
+(* an item that passes the schema phase is typed without exception (other than
+   leaving the modelled fragment) *)
+Lemma ou_typed_item item : item_schema_ok item = Ok true -> only_unmodelled (typed_item item).
+Proof.
+  intro H. unfold item_schema_ok in H. destruct item; try discriminate.
+  destruct (lookup k_operation kvs) as [[| | |name| |]|] eqn:Eop; try discriminate.
+  destruct (negb (mem_str name valid_operation_names)); [discriminate|].
+  match type of H with (if ?b then _ else _) = _ => destruct b; [discriminate|] end.
+  destruct (lookup name op_table) as [[sch init]|] eqn:Et; [|discriminate].
+  destruct (lookup k_parameters kvs) as [p|] eqn:Ep; [|discriminate].
+  injection H as Hc.
+  unfold typed_item, jget_req. rewrite Eop, Ep. cbn [bind]. rewrite Et.
+  destruct (lookup_In name op_table (sch, init) Et) as [k' Hin].
+  pose proof init_total_all as HT. rewrite Forall_forall in HT.
+  destruct (HT (k', (sch, init)) Hin p Hc) as [a Ha]. cbn [snd] in Ha. rewrite Ha. cbn [bind].
+  apply ou_to_opstate.
+Qed.
+
+(* RemodelerValidator.validate returns a verdict for EVERY JSON value -- any
+   nesting, any key spelling -- and never raises (the only other outcome is
+   leaving the modelled fragment: an operation outside the eight) *)
+Lemma validate_never_raises fx ops : only_unmodelled (validate fx ops).
+Proof.
+  unfold validate. destruct ops; try apply ou_ok. destruct l as [|item l]; [apply ou_ok|].
+  destruct (mapM item_schema_ok (item :: l)) as [oks|e0] eqn:Em.
+  - cbn [bind]. destruct (negb (forallb (fun b => b) oks)) eqn:Eall; [apply ou_ok|].
+    apply negb_false_iff in Eall.
+    change (mapM _ (item :: l)) with (mapM typed_item (item :: l)).
+    apply ou_bind; [|intro sts; apply ou_ok].
+    assert (G : forall items oks0, mapM item_schema_ok items = Ok oks0 -> forallb (fun b => b) oks0 = true ->
+                only_unmodelled (mapM typed_item items)).
+    { induction items as [|it items IH]; intros oks0 E1 E2; cbn [mapM] in *; [apply ou_ok|].
+      destruct (item_schema_ok it) as [b|] eqn:Eit; cbn [bind] in E1; [|discriminate].
+      destruct (mapM item_schema_ok items) as [bs|]; cbn [bind] in E1; [|discriminate].
+      injection E1 as <-. cbn [forallb] in E2. apply andb_true_iff in E2 as [-> E2].
+      apply ou_bind; [apply ou_typed_item; exact Eit|]. intro st.
+      apply ou_bind; [exact (IH bs eq_refl E2) | intro sts; apply ou_ok]. }
+    exact (G (item :: l) oks Em Eall).
+  - cbn [bind]. intros e H. injection H as <-.
+    exact (ou_mapM item_schema_ok (item :: l) ou_item_schema_ok e0 Em).
+Qed.
